@@ -432,8 +432,12 @@ Lemma f2_before_witness :
   (exists obs, run (world_new cfg11) f2_prefix = Val (f2_before, obs))
   /\ pub_live f2_before 0 = true /\ inv_check f2_before = true
   /\ (exists w', pub_allocate f2_before 0 = Val (w', AOk 0))
-  /\ map (fun x => (x_origin x, x_off x)) (w_samples f2_before) = [(0, 0)].
-Proof. split; [eexists; vm_compute; reflexivity|]. vm_compute. repeat split. eexists. reflexivity. Qed.
+  /\ (exists x, In x (w_samples f2_before) /\ x_origin x = 0 /\ x_off x = 0).
+Proof.
+  split; [eexists; vm_compute; reflexivity|]. vm_compute. repeat split.
+  - eexists. reflexivity.
+  - eexists. split; [left; reflexivity|]. split; reflexivity.
+Qed.
 
 (* expired connection buffer exceeded: a public call panics *)
 Definition cfg_e1 : config := {| cf_S := 1; cf_P := 1; cf_B := 1; cf_M := 1; cf_H := 0; cf_ovf := false; cf_E := 1 |}.
